@@ -146,7 +146,12 @@ def r3(run: Run, src):
                               'handle_cell/unknown-title-branch', 'unknown-title-not-rejected',
                               'the branch for a title that is not in the map does not raise a library exception',
                               fact=f'raises {[e for e, _ in rs]}', loc=loc_of(fi.module.path, st))
+    from .common import strict_get_lookup
     for gcall in gets:
+        if strict_get_lookup(src, fi, gcall) is not None:
+            run.ok('C06.R3', f'handle_cell/{titles_param}.get(.., sentinel)', 'unknown title -> sentinel -> library exception',
+                   loc=loc_of(fi.module.path, gcall))
+            continue
         run.bad('C06.R3', f'handle_cell/{titles_param}.get', 'default-sheet',
                 'the title is looked up with dict.get: an unknown title resolves to a default instead of being rejected',
                 loc=loc_of(fi.module.path, gcall))
@@ -155,30 +160,55 @@ def r3(run: Run, src):
     fc = ex.methods.get('_fill_cell')
     if fc is None:
         raise AnalysisError('C06.R3', 'Excel._fill_cell not found')
-    parents = parent_map(fc.node)
-    triple = [n for n in ast.walk(fc.node) if isinstance(n, ast.Subscript) and isinstance(n.ctx, ast.Load) and
-              isinstance(n.value, ast.Subscript) and isinstance(n.value.value, ast.Subscript)]
-    if len(triple) != 1:
-        raise AnalysisError('C06.R3', f'expected one three-level data access in Excel._fill_cell, found {len(triple)}')
-    t = triple[0]
-    idx = [ast.unparse(t.value.value.slice), ast.unparse(t.value.slice), ast.unparse(t.slice)]
-    containers = [ast.unparse(t.value.value.value), ast.unparse(t.value.value), ast.unparse(t.value)]
-    conds = path_conditions(fc.node, t, parents)
-    have = set()
-    for test, pol in conds:
-        if not pol:
+    # every access to a level of the data -- directly or through a local that holds a level -- is dominated by the bounds test
+    # 0 <= index < len(level); helpers of the class are analysed in place, guard clauses as nesting
+    from .common import normalized_method, flat_conditions
+    fc, fcn = normalized_method(src, 'Excel', '_fill_cell')
+    parents = parent_map(fcn)
+    alias = {}
+    for st in ast.walk(fcn):
+        if isinstance(st, ast.Assign) and len(st.targets) == 1 and isinstance(st.targets[0], ast.Name):
+            alias.setdefault(st.targets[0].id, []).append(st.value)
+
+    def expand(e, depth=0):
+        """text of the expression with locals that hold a data level replaced by what they hold"""
+        if isinstance(e, ast.Name) and depth < 4 and len(alias.get(e.id, [])) == 1 and \
+                isinstance(alias[e.id][0], (ast.Subscript, ast.Attribute)):
+            return expand(alias[e.id][0], depth + 1)
+        if isinstance(e, ast.Subscript):
+            return f'{expand(e.value, depth)}[{expand(e.slice, depth)}]'
+        if isinstance(e, ast.Call) and isinstance(e.func, ast.Name) and e.func.id == 'len' and len(e.args) == 1:
+            return f'len({expand(e.args[0], depth)})'
+        return ast.unparse(e)
+    accesses = [n for n in ast.walk(fcn) if isinstance(n, ast.Subscript) and isinstance(n.ctx, ast.Load) and
+                expand(n.value).startswith('self._data')]
+    if len(accesses) < 3:
+        raise AnalysisError('C06.R3', f'expected accesses to the three data levels in Excel._fill_cell, found {len(accesses)}')
+    seen = set()
+    for acc in accesses:
+        cont, i = expand(acc.value), expand(acc.slice)
+        if (cont, i) in seen:
             continue
-        for c in ast.walk(test):
-            if isinstance(c, ast.Compare) and len(c.ops) == 2 and isinstance(c.ops[0], ast.LtE) and isinstance(c.ops[1], ast.Lt) \
-                    and isinstance(c.left, ast.Constant) and c.left.value == 0:
-                mid = ast.unparse(c.comparators[0])
-                hi = c.comparators[1]
-                if isinstance(hi, ast.Call) and isinstance(hi.func, ast.Name) and hi.func.id == 'len' and hi.args:
-                    have.add((mid, ast.unparse(hi.args[0])))
-    for i, cont in zip(idx, containers):
-        run.check((i, cont) in have, 'C06.R3', f'Excel._fill_cell/{cont}[{i}]', 'unguarded-index',
+        lower = upper = False
+        for test, pol in flat_conditions(path_conditions(fcn, acc, parents)):
+            if not pol or not isinstance(test, ast.Compare):
+                continue
+            operands = [test.left] + list(test.comparators)
+            for (a, op, b) in zip(operands, test.ops, operands[1:]):
+                ta, tb = expand(a), expand(b)
+                if ta == '0' and isinstance(op, ast.LtE) and tb == i:
+                    lower = True
+                if tb == '0' and isinstance(op, ast.GtE) and ta == i:
+                    lower = True
+                if ta == i and isinstance(op, ast.Lt) and tb == f'len({cont})':
+                    upper = True
+                if tb == i and isinstance(op, ast.Gt) and ta == f'len({cont})':
+                    upper = True
+        # an access that only serves a bounds test of a deeper level (len(data[t][r])) is guarded by the tests to its left
+        seen.add((cont, i))
+        run.check(lower and upper, 'C06.R3', f'Excel._fill_cell/{cont}[{i}]', 'unguarded-index',
                   f'the access {cont}[{i}] is not dominated by the bounds test 0 <= {i} < len({cont})',
-                  fact=f'0 <= {i} < len({cont})', loc=loc_of(fc.module.path, t))
+                  fact=f'0 <= {i} < len({cont})', loc=loc_of(fc.module.path, acc))
 
 
 def _signature(fn: ast.FunctionDef):
